@@ -824,6 +824,11 @@ func (env *specEnv) evalCall(x SCall) (Val, types.Type) {
 	case "sqrt":
 		a, _ := arg(0)
 		return vc.sqrtTerm(nil, a), tFloat
+	case "streq":
+		// Go string equality (contents)
+		a, _ := arg(0)
+		b, _ := arg(1)
+		return vc.strEq(a, b), tBool
 	case "sameslice":
 		a, _ := arg(0)
 		b, _ := arg(1)
